@@ -1058,6 +1058,9 @@ class C07(Prop):
         "of a request is taken from the implementation (Edge.is_valid) and tied separately to Model/C07_Dir.eligible by sampled, "
         "kernel-decided inequalities (interval, 80 bits)",
         "arc lengths (three-point arcs, origin/angle conversions) and curve parameter searches are properties C08/C16, not C07",
+        "Model/C07_Series.v (from_series, reverse, invert, slots as references) is a hand transcription; from_series and invert are "
+        "compared with the side edges of Loft.from_series on the series cases of stream (d) (points matched back to positions in "
+        "the given face list); Revolve and the moved operations are covered by the direct oracle of stream (d) only",
     ]
     partial = [
         "C07_valid_filter: the equivalence 'written <-> eligible' is established by the sampled interval correspondence, "
